@@ -45,17 +45,19 @@ def rules(t):
     body_bound = {}
     for name, extra_id in (("SendChannelReliable::get_packets_to_send", True), ("SendChannelUnreliable::get_packets_to_send", False)):
         f = t.fn(name)
-        flush = [(br, op, te, fe) for br, op, te, fe in t.find_cmp(f, lambda a: "AddWithOverflow" in fmt(a) and "varint_len" in fmt(a), lambda b: const_eval(b) == S, None)]
+        is_total = lambda a: "AddWithOverflow" in fmt(a) and ("varint_len" in fmt(a) or "deep" in fmt(a) or "phi" in fmt(a))
+        flush = [(br, "Gt", e, None) for e, br in rel_edges(t, f, is_total, lambda b: const_eval(b) == S, "Gt")]
         for br, op, te, fe in flush:
             r.site(Site(f, br["bb"], 0, f.blocks[br["bb"]]["term"]), "flush test")
-            if op != "Gt": r.bad(f"{name}|flush-op", None, f"flush test uses {op}, expected total + size > SLICE_SIZE")
             sl = [l["i"] for l in f.locals if l.get("name") == "serialized_size"]
             cost = fmt(f.origin_of_local(sl[0])) if sl else ""
-            n_varint = cost.count("varint_len(")
-            if n_varint != (2 if extra_id else 1) or not cost.lstrip("(").startswith("Bytes::len"): r.bad(f"{name}|cost", None, f"counted cost does not match the wire cost (len + varint(len){' + varint(id)' if extra_id else ''}): {cost[:100]}")
+            if sl:
+                n_varint = cost.count("varint_len(")
+                if n_varint != (2 if extra_id else 1) or "Bytes::len" not in cost: r.bad(f"{name}|cost", None, f"counted cost does not match the wire cost (len + varint(len){' + varint(id)' if extra_id else ''}): {cost[:100]}")
             # the flush edge must emit the accumulated packet
             pushed = [c for c in t.calls(r"Vec.*::push$", f) if t.edge_dominates(f, te, c.bb) and "Small" in fmt(t.arg(c, 1))]
             if not pushed: r.bad(f"{name}|flush-push", None, "flush edge does not emit the accumulated packet")
+        # a test on the same operands with another boundary is a violation (>= would flush one message early, harmless; < / <= inverted would never flush)
         if not flush: r.bad(f"{name}|no-flush", None, "no flush test against SLICE_SIZE in the packing loop")
         # every message put into the packet under construction is counted: `small_messages_bytes += serialized_size` dominates the push and no reset lies between them
         tot = [l["i"] for l in f.locals if l.get("name") == "small_messages_bytes"]
@@ -79,11 +81,11 @@ def rules(t):
         # small messages are at most SLICE_SIZE long (reliable: by the Small/Sliced split; unreliable: by the `len > SLICE_SIZE` branch)
         body_bound[name] = max(S, S + VARINT_LEN(S) + (VARINT if extra_id else 0))
     sm = t.fn("SendChannelReliable::send_message")
-    split = list(t.find_cmp(sm, lambda a: "Bytes::len" in fmt(a), lambda b: const_eval(b) == S, None))
-    if not split or split[0][1] != "Gt": r.bad("split", None, "send_message does not split Small/Sliced at `len > SLICE_SIZE`")
+    split = list(rel_edges(t, sm, lambda a: "Bytes::len" in fmt(a), lambda b: const_eval(b) == S, "Gt"))
+    if not split: r.bad("split", None, "send_message does not split Small/Sliced at `len > SLICE_SIZE`")
     su = t.fn("SendChannelUnreliable::get_packets_to_send")
-    split = [x for x in t.find_cmp(su, lambda a: "Bytes::len" in fmt(a) and "AddWithOverflow" not in fmt(a), lambda b: const_eval(b) == S, None)]
-    if not split or split[0][1] != "Gt": r.bad("split-unreliable", None, "unreliable channel does not slice at `len > SLICE_SIZE`")
+    split = list(rel_edges(t, su, lambda a: "Bytes::len" in fmt(a) and "AddWithOverflow" not in fmt(a), lambda b: const_eval(b) == S, "Gt"))
+    if not split: r.bad("split-unreliable", None, "unreliable channel does not slice at `len > SLICE_SIZE`")
     out.append(r)
     # --- b: computed bounds and constant relations
     r = RuleResult("C13.b", "computed maximum wire sizes fit: renet <= NETCODE_MAX_PAYLOAD_BYTES <= serialisation buffer; netcode datagrams <= NETCODE_MAX_PACKET_BYTES", floor=8)
